@@ -6,7 +6,7 @@ META = dict(
     level="proof",
     claim="Statement lowering (real gen_stmt) and short-circuit/conditional lowering (real gen_expr), executed on the ghost x86 machine with abstract sub-statements: exactly the branch selected by the condition's value (of the condition's own type) is executed; for/do evaluate init, condition, body, increment in abstract-machine order, the back-edge returns to the loop head label, continue/break labels sit where C11 requires; &&, || and ?: evaluate their operands exactly when C11 says and in order; goto/label/case/return jump to / define the resolved labels. One symbolic pass per loop; iteration is by the loop-head invariant (machine balanced at the back-edge).",
     note="Trusted: CBMC, ghost x86 machine. Also: switch dispatch compares at the width of the controlling type incl. case ranges (32/64-bit); find_var/find_typedef/find_tag return the innermost binding over 3 nested scopes; resolve_goto_labels binds each goto to the label with exactly its name (bounded lists). Not covered: the statement parser's break/continue/switch context save-restore, computed-goto targets' validity.",
-    functions=["codegen.c:gen_stmt", "codegen.c:gen_expr", "codegen.c:cmp_zero", "codegen.c:count", "parse.c:find_var", "parse.c:find_tag", "parse.c:find_typedef", "parse.c:resolve_goto_labels"],
+    functions=["parse.c:struct_union_decl", "parse.c:push_tag_scope", "parse.c:stmt", "parse.c:compound_stmt", "codegen.c:gen_stmt", "codegen.c:gen_expr", "codegen.c:cmp_zero", "codegen.c:count", "parse.c:find_var", "parse.c:find_tag", "parse.c:find_typedef", "parse.c:resolve_goto_labels"],
     trusted_base=["CBMC 6.11", "spec/x86_ghost.h"],
     assumptions=["sub-statements and sub-expressions are abstract nodes satisfying the gen_stmt/gen_expr contracts"],
 )
@@ -30,4 +30,12 @@ def jobs(tier):
     for k in ("ND_LOGAND", "ND_LOGOR", "ND_COND"):
         js.append(Job(name=f"logic-{k}", src="../C01/logic.c", group="C03.5 short-circuit", defs={"KIND": k}, enforce="gen_expr", rec=True,
                       sample=f"gen_expr({k}): which operands are evaluated, in which order", **CG))
+    for sc, nm in enumerate(["do", "for", "while", "switch"]):
+        js.append(Job(name=f"ctx-{nm}", src="ctx.c", group="C03.2 break/continue/switch context", defs={"SCEN": str(sc)}, mode="plain", cut=["error", "error_tok", "error_at", "warn_tok"], units=["type.c"],
+                      redirect={"expr": "stub_expr", "new_unique_name": "stub_new_unique_name", "is_typename": "stub_is_typename"}, cbmc_flags=["--paths lifo"], unwind=30, unwindset=["strlen.0:40", "memcmp.0:40"], timeout=300, replay=None,
+                      bounded="one statement shape per job, arbitrary enclosing context", sample=f"stmt() on a {nm} statement whose body holds continue and break"))
+    for f, nm in enumerate(["definition", "reference"]):
+        js.append(Job(name=f"tags-{nm}", src="tags.c", group="C03.3 name binding", defs={"FORM": str(f)}, mode="plain", cut=["error", "error_tok", "error_at", "warn_tok"], units=["type.c"],
+                      redirect={"struct_members": "stub_struct_members", "attribute_list": "stub_attribute_list"}, unwind=8, timeout=300, replay=None,
+                      bounded="two nested scopes, one tag", sample=f"struct_union_decl on a tag {nm} with every binding pattern of two scopes"))
     return js
